@@ -164,6 +164,15 @@ def replay(path):
         bad = ev["extra"].get("accepted") and ev["extra"].get("outside_alphabet")
         print("REPRODUCED" if bad else "NOT-REPRODUCED")
         return 1 if bad else 0
+    case = rep.get("case", rep)
+    if pid and "input_hex" in case and "policy" in case and kind != "harness-stalled":
+        # a document and a policy: run the property's oracle on exactly this case against the current tree
+        ev = V.harness(["oracle", "-prop", pid, "-input", case["input_hex"], "-policy", json.dumps(case["policy"])])
+        fails = ev.get("oracle_failures") or []
+        for f in fails[:3]:
+            print(json.dumps({k: f.get(k) for k in ("clause", "input_text", "output") if k in f})[:600])
+        print("REPRODUCED" if fails else "NOT-REPRODUCED (the oracle accepts this case on the current tree)")
+        return 1 if fails else 0
     print("replay: nothing executable recorded for kind", kind, "- see the 'broken' field:", rep.get("broken"))
     return 1
 
